@@ -44,17 +44,17 @@ func init() {
 			"full / non-empty strict prefix / HTTP 502,503,504,429 / malformed JSON (6 kinds) / connection reset, GOMAXPROCS{1,2,4,16}, every configuration run twice; " +
 			"plus a long family (> 2.5 s, incl. HTTP 500) in which the once-per-second progress goroutine runs. non-trivial = Scan returned and the scanned range held >= 1 entry; " +
 			"distinct by hash of the configuration (tree, options, plan, GOMAXPROCS, leg) — the two repetitions of a configuration count once",
-		MinNontrivial:         100,
-		MinNontrivialThorough: 2000,
+		MinNontrivial:         120,
+		MinNontrivialThorough: 700,
 		Shards:                8,
 		RaceShards:            8,
 		RacePkgs:              []string{"zcrypto/ct/scanner", "zcrypto/ct/client"},
-		ChildTimeoutQuick:     2400,
+		ChildTimeoutQuick:     5400,
 		Assumptions: []string{
 			"the fake log answers every range request with the complete range, a non-empty strict prefix or a transient failure, and after a bounded number of failures per range start with the complete range",
 			"entries whose certificate cannot be parsed are not handed to the matcher (there is no certificate to hand over); per the scanner's comments they are skipped, or with IgnoreParsingErrors delivered to the found callback when they are valid ASN.1",
 			"an entry is identified by the serial number of the certificate handed to the matcher / by the raw bytes handed to the callback",
-			"termination: a Scan that has not returned while the fake log has seen no new request for 240 s (a whole scan normally takes < 5 s), with goroutines parked in ct/scanner frames, is reported as a violation with the goroutine dump",
+			"termination: a Scan that has not returned while the fake log has seen no new request for 600 s (a whole scan normally takes < 5 s), with goroutines parked in ct/scanner frames, is reported as a violation with the goroutine dump",
 			"race detection is that of the Go race detector on the interleavings that occurred (GOMAXPROCS 1/2/4/16, perturbed callbacks and handlers)",
 			"goroutine ids are read from runtime.Stack; ordering of events across goroutines uses the monotonic clock and is used for evidence (interleaving counts) only",
 		},
@@ -374,7 +374,7 @@ func runScan(cfg scanConfig, tree *fakeTree) *scanResult {
 	}()
 	// termination watch: progress-based, so that a slow machine is not mistaken for a hang. Progress = a new
 	// request reaching the fake log; once the last range has been fetched at most 3000 buffered entries remain.
-	const idleLimit, hardLimit = 240 * time.Second, 30 * time.Minute
+	const idleLimit, hardLimit = 600 * time.Second, 40 * time.Minute
 	tick := time.NewTicker(2 * time.Second)
 	defer tick.Stop()
 	lastN, lastChange := -1, time.Now()
@@ -703,11 +703,11 @@ func runC17(c *core.Ctx) {
 	if !selfCheckTemplates(c) {
 		return
 	}
-	nShort := c.Pick(24, 900)
-	nLong := c.Pick(1, 8)
+	nShort := c.Pick(24, 150)
+	nLong := c.Pick(1, 3)
 	if race {
-		nShort = c.Pick(8, 320)
-		nLong = c.Pick(1, 6)
+		nShort = c.Pick(8, 50)
+		nLong = c.Pick(1, 3)
 	}
 	st := &c17stats{interleavings: map[uint64]bool{}, reqOrders: map[uint64]bool{}, deliveryOrder: map[uint64]bool{}}
 	r := c.Rng
@@ -737,7 +737,7 @@ func runC17(c *core.Ctx) {
 			c.Count("scans", 1)
 			if res.hung {
 				if strings.Contains(res.dump, "zcrypto/ct/scanner.(*Scanner)") {
-					c.Violation("termination:scan-did-not-return", "Scan has not returned and the log has seen no request for 240 s; goroutines parked in ct/scanner frames:\n"+res.dump, cid, cfg)
+					c.Violation("termination:scan-did-not-return", "Scan has not returned and the log has seen no request for 600 s; goroutines parked in ct/scanner frames:\n"+res.dump, cid, cfg)
 				} else {
 					c.Note("scan %s: watchdog fired without scanner frames in the dump (inconclusive)", cid)
 					c.Count("watchdog_without_scanner_frames", 1)
